@@ -16,7 +16,7 @@ RULE = ("cases = (a) IniFile histories on one path: an INI text generated from s
         "independent python INI semantics; (c) 'wild' INI texts outside the grammar (garbage lines, unclosed or indented headers, "
         "'/' in keys, blank-padded values) for the model correspondence only; (d) tables up to 30x8 written through "
         "TabularDataFile (cell by cell, and rows handed over as array Vars incl. the same array object sent again and arrays shorter/longer "
-        "than the column count) and read back, cells = %.15g numbers of every magnitude 4.9e-324..1.8e308 (subnormals included), ints, empty strings, strings over "
+        "than the column count; also after setSeparator(';' or tab) / setDecimal(',')) and read back, cells = %.15g numbers of every magnitude 4.9e-324..1.8e308 (subnormals included), ints, empty strings, strings over "
         "letters digits , ; \" ' space - . e +; (e) arbitrary CSV texts through the reader; (f) myatof on number lexemes; "
         "non-trivial = distinct case with at least one set on a non-empty text, or a table with at least one non-empty cell")
 TRUSTED = ["harness/c18.cpp number cells: strtod() of the %.15g lexeme produces the double handed to TabularDataFile, "
@@ -329,6 +329,29 @@ def csv_array_case(rng, tier):
     return ["tabw " + args, "tabrt " + args]
 
 
+def csv_sep_case(rng, tier):
+    """setSeparator / setDecimal before writing: ';' with '.', ';' with ',' (the pair the reader assumes), tab with '.'"""
+    sep, dec = rng.choice([(59, 46), (59, 46), (59, 44), (9, 46)])
+    names, cells, _ = gen_table(rng, tier, False)
+    n = len(names)
+    fixed = []
+    for c in cells:
+        if c.startswith("s:"):
+            s = unhex(c[2:])
+            # a string that spells a number with either decimal symbol comes back as a number: excluded as for ','
+            if NUMLIKE.match(s.replace(b",", b".")) or b"\t" in s:
+                c = "s:" + hexs(b"x" + s.replace(b"\t", b" "))
+        fixed.append(c)
+    cells = fixed
+    if rng.random() < 0.3 and n > 0:
+        rows = [cells[i:i + n] for i in range(0, len(cells) - len(cells) % n, n)][:10]
+        cells = []
+        for r in rows:
+            cells += ["["] + r + ["]"]
+    args = "%d %d %d %s%s" % (sep, dec, n, " ".join(hexs(x) for x in names), "".join(" " + c for c in cells))
+    return ["tabws " + args, "tabrts " + args]
+
+
 CSVCH = b"ab1,;\"\t .-e\n\r5"
 
 
@@ -388,6 +411,8 @@ def gen(rng, tier):
         cases.append(csv_case(rng, tier))
     for _ in range(250 * k):
         cases.append(csv_array_case(rng, tier))
+    for _ in range(250 * k):
+        cases.append(csv_sep_case(rng, tier))
     for _ in range(400 * k):
         cases.append(csvtext_case(rng, tier))
     for _ in range(60 * k):
@@ -408,6 +433,8 @@ def nontrivial(case):
     for l in case:
         t = l.split()
         if t[0] in ("set", "put") or (t[0] == "inirt" and len(t) > 3 and t[2] not in ("-", "none")):
+            return True
+        if t[0] in ("tabws", "tabrts"):
             return True
         if t[0] in ("tabw", "tabrt", "tabrtx") and any(c not in ("s:-", "[", "]", "=") for c in t[2 + int(t[1]):]):
             return True
@@ -456,6 +483,10 @@ def distribution(cases):
                         if b"=" in x and not x.lstrip().startswith((b"#", b";")):
                             it["sectionless_keys"] += 1
                             break
+            if op == "tabrts":
+                key = "sep%s_dec%s" % (t[1], t[2])
+                d["tables"].setdefault("separator_configs", {})
+                d["tables"]["separator_configs"][key] = d["tables"]["separator_configs"].get(key, 0) + 1
             if op in ("tabrt", "tabrtx"):
                 n = int(t[1])
                 cells = [x for x in t[2 + n:] if x not in ("[", "]", "=")]
@@ -572,6 +603,13 @@ def reference(line):
         if op == "inirt" and t[1] in ("w", "c"):
             pairs = [(unhex(t[i]), unhex(t[i + 1])) for i in range(3, len(t) - 1, 2)]
             return ini_expected(t[2], pairs)
+        sep, dec = 44, 46
+        if op in ("tabws", "tabrts"):
+            sep, dec = int(t[1]), int(t[2])
+            t = [t[0]] + t[3:]
+            if int(t[1]) == 1:
+                return None      # a one-column file contains no separator the reader could recognise
+            op = "tabw" if op == "tabws" else "tabrt"
         if op == "tabrt":
             names, rows, _ = table_expected(t)
             out = []
@@ -590,10 +628,10 @@ def reference(line):
             if n == 1 and any(c == "s:-" for r in rows for c in r):
                 return None      # python writes a lone empty field as "" (quoted); both spellings are valid CSV
             buf = io.StringIO()
-            w = csv.writer(buf, lineterminator="\n", quoting=csv.QUOTE_MINIMAL)
+            w = csv.writer(buf, lineterminator="\n", quoting=csv.QUOTE_MINIMAL, delimiter=chr(sep))
             w.writerow([x.decode("latin-1") for x in names])
             for r in rows:
-                w.writerow([c[2:] if c.startswith("n:") else unhex(c[2:]).decode("latin-1") for c in r])
+                w.writerow([c[2:].replace(".", chr(dec)) if c.startswith("n:") else unhex(c[2:]).decode("latin-1") for c in r])
             s = buf.getvalue().encode("latin-1")
             if not rows:
                 s = s[:-1]   # asl ends the header line when the first row is written
@@ -630,7 +668,8 @@ LEVEL_TEXT = ("Proved in Lean 4 about the model that the driver runs against the
               "column names and every table of such cells (strings without line breaks that do not spell a number, number texts) the "
               "file written through columns()/operator<< cell by cell or row by row as array Vars (the same array sent again included) and read by a fresh TabularDataFile (header detection, separator sniffing, "
               "data() loop, BOM test, type inference) gives back the columns and the rows cell for cell, numbers as myatof of the text "
-              "written; (6) csv_number_exact_Q: every number text "
+              "written; csv_semicolon_row: after setSeparator(';') a row of such cells is parsed back cell for cell under the reader's setting for "
+              "';' files (decimal comma guessed), numbers written with '.' being numbers again (fix cb50e4a); (6) csv_number_exact_Q: every number text "
               "[-]digits[.digits][(e|E)[+|-]digits] with at most 18 mantissa digits and 9 exponent digits is accepted by myisnumber, keeps "
               "the code's long long y1 below 2^63 and its int exponent within +-2^31 (so the model's integers are the machine's), and the "
               "rational y1*10^exp held by myatof before its floating-point multiplication equals the number spelled. All texts, keys, "
@@ -646,6 +685,8 @@ LEVEL_NOTE = ("NO THEOREM covers the '15 significant digits' clause itself: that
               "sectionNames(), plain names without '/', operator[]= and reopen are in the model and in K but the persist theorem is stated "
               "for set(\"section/key\") and const operator[]; keys outside KeyOK (containing '/', '=' or starting below '0') and values with "
               "outer blanks are K-only. The former known finding csv-tiny-number (|x| < ~1e-293 read back wrong) is repaired (7b5df72) and its "
-              "witness runs from the corpus; number texts with more than 18 mantissa or 9 exponent digits overflow in the C code and are "
+              "witness runs from the corpus; tables written with a non-default separator / decimal symbol are proved at the row level only "
+              "(csv_semicolon_row), their table level (header sniffing of ';' and tab, decimal comma written by setDecimal) is K + python "
+              "oracle only, and one-column tables with a non-default separator are outside (no separator in the file to sniff); number texts with more than 18 mantissa or 9 exponent digits overflow in the C code and are "
               "outside theorem and generator. Not modelled: IniFile::section()/arraysize()/array() (deprecated), write(otherName); TabularDataFile ARFF output, "
               "readAs(), setSeparator/setDecimal/useQuotes/flushEvery. Trusted: Lean kernel, harness/c18.cpp, the generator; libc fgets/feof, strtod, snprintf %.15g, pow as listed.")
